@@ -290,14 +290,18 @@ func (p *Parser) statement() (Statement, error) {
 			if p.current.Tag == In || p.current.Tag == Comma {
 				var indexIdent *ExprIdentifier
 				if p.current.Tag == Comma {
-					p.consume(Comma)
+					if err := p.consume(Comma); err != nil {
+						return nil, err
+					}
 					if err := p.consume(Ident); err != nil {
 						return nil, err
 					}
 					indexIdent = &ExprIdentifier{*p.previous}
 				}
 
-				p.consume(In)
+				if err := p.consume(In); err != nil {
+					return nil, err
+				}
 				expr, err := p.expression()
 				if err != nil {
 					return nil, err
@@ -354,22 +358,30 @@ func (p *Parser) statement() (Statement, error) {
 		if !p.inLoop {
 			return nil, p.error(p.current.Pos, "can only break inside a loop")
 		}
-		p.consume(Break)
+		if err := p.consume(Break); err != nil {
+			return nil, err
+		}
 		stmt := StatementBreak{*p.previous}
 		return &stmt, nil
 	case Continue:
 		if !p.inLoop {
 			return nil, p.error(p.current.Pos, "can only continue inside a loop")
 		}
-		p.consume(Continue)
+		if err := p.consume(Continue); err != nil {
+			return nil, err
+		}
 		stmt := StatementContinue{*p.previous}
 		return &stmt, nil
 	case Next:
-		p.consume(Next)
+		if err := p.consume(Next); err != nil {
+			return nil, err
+		}
 		stmt := StatementNext{*p.previous}
 		return &stmt, nil
 	case Exit:
-		p.consume(Exit)
+		if err := p.consume(Exit); err != nil {
+			return nil, err
+		}
 		stmt := StatementExit{*p.previous}
 		return &stmt, nil
 	default:
@@ -409,7 +421,9 @@ func (p *Parser) printStatement() (StatementPrint, error) {
 		}
 		args = append(args, expr)
 		if p.current.Tag == Comma {
-			p.consume(Comma)
+			if err := p.consume(Comma); err != nil {
+				return StatementPrint{}, err
+			}
 		} else {
 			break
 		}
@@ -604,7 +618,9 @@ func (p *Parser) evalExprList(endToken TokenTag) ([]Expr, error) {
 		}
 		args = append(args, expr)
 		if p.current.Tag == Comma {
-			p.consume(Comma)
+			if err := p.consume(Comma); err != nil {
+				return nil, err
+			}
 		} else {
 			break
 		}
@@ -669,7 +685,9 @@ func match(p *Parser) (Expr, error) {
 			if p.current.Tag != Comma {
 				break
 			}
-			p.consume(Comma)
+			if err := p.consume(Comma); err != nil {
+				return nil, err
+			}
 		}
 
 		if err := p.consume(Arrow); err != nil {
@@ -991,7 +1009,9 @@ func (p *Parser) parseFunction() (ExprFunction, error) {
 		str := p.lexer.GetString(p.previous)
 		args = append(args, str)
 		if p.current.Tag == Comma {
-			p.consume(Comma)
+			if err := p.consume(Comma); err != nil {
+				return ExprFunction{}, err
+			}
 		}
 	}
 
